@@ -20,12 +20,13 @@ ID = "C08"
 LEVEL = "exploration"
 N_QUICK, N_THOROUGH = 8000, 300000
 T_QUICK, T_THOROUGH = 70, 1500
-OPS = ["construct", "construct-empty", "construct-union", "copy-holder", "bind-existing", "bind-value", "bind-foreign", "bind-null",
+OPS = ["construct", "construct-empty", "construct-union", "copy-holder", "bind-other-type", "bind-existing", "bind-value", "bind-foreign", "bind-null",
        "write-through-ref", "write-through-original", "grow"]
 FLOORS = {"histories": 1500, "steps": 20000, "slot_resolutions": 100000, "growths": 1000, "alias_checks": 20000,
           "null_checks": 20000, "raw_null_union_checks": 3000, "live_extent_checks": 30000,
           "empty_nd_reference_arrays": 300, "copy_same_buffer": 300, "copy_other_buffer": 300, "toplevel_union_get": 3000}
 FLOORS.update({"op:" + o: 800 for o in OPS})
+FLOORS["op:bind-other-type"] = 150
 RULE = ("generated reference-bearing types (Ref and UnionRef as struct fields and as array items, referents that hold "
         "references themselves, 1-3 dimensional arrays of references in any axis order created without values) in two "
         "buffers; histories of <=25 steps over {construct, construct-empty, copy of a holder into the same / the other "
@@ -97,7 +98,9 @@ def gen_types(rng, tg):
     d2, o2 = nd_dims()
     E1 = {"k": "ar", "n": tg.name("E"), "it": {"k": "ref", "to": rng.choice([P, Q])}, "dims": d1, "ord": o1}
     E2 = {"k": "ar", "n": tg.name("E"), "it": U, "dims": d2, "ord": o2}
-    return dict(P=P, Q=Q, R=R, U=U, E1=E1, E2=E2), holders
+    # a class that is NOT the declared target of Ref[Q] but holds compatible data (same items, other extents declaration)
+    Qx = {"k": "ar", "n": tg.name("Qx"), "it": Q["it"], "dims": [None] if Q["dims"][0] is not None else [rng.choice([1, 2, 3])], "ord": [0]}
+    return dict(P=P, Q=Q, R=R, U=U, E1=E1, E2=E2, Qx=Qx), holders
 
 
 class Graph:
@@ -425,6 +428,35 @@ def _step(G, op, rng, vg, tt, holders, holders_live, fresh):
         return True
     o = rng.choice(holders_live)
     slots = G.slots(o)
+    if op == "bind-other-type":
+        # an object of ANOTHER class living in the holder's own buffer: the reference must not denote it (it would be
+        # read with the wrong layout); a new object of the declared type is created from its data
+        cand = [x for x in slots if x[0] and x[2]["k"] == "ref" and x[2]["to"] is tt["Q"]]
+        if not cand:
+            return False
+        p, l, nt, nv = rng.choice(cand)
+        Q, Qx = tt["Q"], tt["Qx"]
+        n = Q["dims"][0] if Q["dims"][0] is not None else Qx["dims"][0]
+        pv = AVal((n,), {(i,): vg.scalar(Q["it"]["t"]) for i in range(n)})
+        other = build(Qx, G.cache)(plain(Qx, pv, rng), _buffer=o.env.buf)
+        n0 = G.n
+        obs = Obs(o.env)
+        set_path(o.h, p, other)
+        obs.done()
+        new = G.new(Q, pv, o.env)
+        o.mv = set_model(o.t, o.mv, p, Oid(new.i))
+        new.h = get_path(o.h, p)
+        if new.h is None:
+            G.viol("bind-other-type-reads-None", f"#{o.i}{l}")
+            return True
+        fresh.extend(range(n0 + 1, G.n + 1))
+        if int(new.h._offset) == int(other._offset):
+            G.viol("reference-denotes-object-of-another-class", f"#{o.i}{l} -> {type(other).__name__} at {other._offset}")
+        lo, hi = int(new.h._offset), int(new.h._offset) + int(new.h._get_size())
+        if not bufmon.inside(lo, hi, [(a, a + s_) for a, s_ in obs.allocs]):
+            G.viol("bind-other-type:new-object-not-in-allocation-of-this-step", f"[{lo},{hi}) allocations {obs.allocs}")
+        G.hist.append([op, f"#{o.i}{l}", Qx["n"], f"-> #{new.i}"])
+        return True
     if op.startswith("bind"):
         p, l, nt, nv = rng.choice(slots)
         if not p:
